@@ -133,5 +133,15 @@ func Registry() []*Spec {
 		Quick: map[string]int{}, Thorough: map[string]int{},
 		Covers: []string{"true", "false"}, UnitDepth: 3,
 		Note: "lt gt lte gte eq on 2..3 symbolic one-byte strings: true iff every argument relates to its successor"})
+	// ---- C07: reused and pooled instances behave like fresh ones
+	add(Spec{Property: "C07", Name: "VerifC07_Reuse", Pkg: "asm",
+		Quick: map[string]int{}, Thorough: map[string]int{},
+		Covers: []string{"first-ok", "first-failed"}, UnitDepth: 5,
+		AllowUnsupported: []string{"(reflect.Value).", "reflect."},
+		Note: "two-call histories on oj.Parser, gen.Parser, sen.Parser, oj.Validator, oj.Tokenizer and the pooled oj.Parse / sen.Parse (sync.Pool contract stub: Get returns the instance Put last): first call = 11 state-setting prefixes + one symbolic byte (or two symbolic bytes) through Parse / ParseReader(1-byte reads) / Parse(NumConvFloat64) / Parse(callback) / Unmarshal; second call = 9 documents through Parse or ParseReader; compared with a fresh instance (error-ness, value, position), earlier result unchanged"})
+	add(Spec{Property: "C07", Name: "VerifC07_Writers", Pkg: "asm",
+		Quick: map[string]int{}, Thorough: map[string]int{"SLEN": 2, "KLEN": 2},
+		Covers: []string{"done"}, UnitDepth: 4,
+		Note: "two writes of C04 tree shapes (symbolic leaves) on one oj.Writer / sen.Writer or through the pooled oj.JSON, oj.Marshal, sen.String: the second text equals a fresh writer's, a Marshal result is not altered by the next call"})
 	return r
 }
